@@ -112,14 +112,36 @@ VBIRead(b) ==
      ELSE IF ~C(4) THEN [kind |-> "value", val |-> V(1) + 128 * V(2) + 16384 * V(3) + 2097152 * V(4), width |-> 4, minimal |-> V(4) # 0]
      ELSE [kind |-> "reject", why |-> IF n = 4 THEN "ends on continuation" ELSE "fifth byte"]
 
-(* Text that is certainly well-formed UTF-8 by MQTT 1.5.4: printable ASCII *)
-(* or well-formed two-byte sequences U+00A0..U+07FF.  Conservative: a      *)
-(* string outside this set is never *required* to be accepted.             *)
+(***************************************************************************)
+(* Text that MQTT 1.5.4 allows without reservation: well-formed UTF-8      *)
+(* (1 to 4 byte sequences, shortest form, no surrogates, at most U+10FFFF) *)
+(* without U+0000, the control characters U+0001..U+001F, U+007F..U+009F   *)
+(* and the non-characters.  Conservative where MQTT says SHOULD NOT: a     *)
+(* string outside this set is never *required* to be accepted.  Written    *)
+(* without recursion (strings of 65 535 bytes): every byte is judged by    *)
+(* looking at most three positions back and forth.                         *)
+(***************************************************************************)
+IsCont(b) == b >= 128 /\ b <= 191
+LeadLen(b) == IF b < 128 THEN 1 ELSE IF b >= 194 /\ b <= 223 THEN 2 ELSE IF b >= 224 /\ b <= 239 THEN 3
+              ELSE IF b >= 240 /\ b <= 244 THEN 4 ELSE 0
 TextOK(s) ==
   LET n == Len(s)
-      Ascii(b) == b >= 32 /\ b <= 126
-      Lead(i) == s[i] >= 194 /\ s[i] <= 223 /\ i < n /\ s[i + 1] >= 128 /\ s[i + 1] <= 191
-                 /\ ~(s[i] = 194 /\ s[i + 1] < 160)
-      Cont(i) == s[i] >= 128 /\ s[i] <= 191 /\ i > 1 /\ s[i - 1] >= 194 /\ s[i - 1] <= 223
-  IN \A i \in 1..n : Ascii(s[i]) \/ Lead(i) \/ Cont(i)
+      LeadOK(i) ==                     \* s[i] starts a character: the right number of continuation bytes follow, no forbidden code point
+        LET b == s[i]  L == LeadLen(b) IN
+        /\ L >= 1 /\ i + L - 1 <= n
+        /\ \A e \in 1..(L - 1) : IsCont(s[i + e])
+        /\ (L = 1 => b >= 32 /\ b # 127)
+        /\ (L = 2 => ~(b = 194 /\ s[i + 1] < 160))                              \* U+0080..U+009F
+        /\ (L = 3 => /\ ~(b = 224 /\ s[i + 1] < 160)                            \* shortest form
+                      /\ ~(b = 237 /\ s[i + 1] >= 160)                           \* surrogates
+                      /\ ~(b = 239 /\ s[i + 1] = 183 /\ s[i + 2] >= 144 /\ s[i + 2] <= 175)   \* U+FDD0..U+FDEF
+                      /\ ~(b = 239 /\ s[i + 1] = 191 /\ s[i + 2] >= 190))      \* U+FFFE, U+FFFF
+        /\ (L = 4 => /\ ~(b = 240 /\ s[i + 1] < 144)                            \* shortest form
+                      /\ ~(b = 244 /\ s[i + 1] > 143)                            \* above U+10FFFF
+                      /\ ~(s[i + 1] % 16 = 15 /\ s[i + 2] = 191 /\ s[i + 3] >= 190))   \* U+xFFFE, U+xFFFF
+      ContOK(i) ==                     \* s[i] continues a character that started at most three bytes earlier
+        \E d \in 1..3 : /\ i - d >= 1 /\ ~IsCont(s[i - d]) /\ LeadLen(s[i - d]) > d
+                        /\ \A e \in 1..(d - 1) : IsCont(s[i - e])
+  IN \/ \A i \in 1..n : s[i] >= 32 /\ s[i] <= 126                              \* fast path: printable ASCII
+     \/ \A i \in 1..n : IF IsCont(s[i]) THEN ContOK(i) ELSE LeadOK(i)
 =============================================================================
